@@ -8,7 +8,7 @@ VERIF = os.path.dirname(os.path.dirname(os.path.abspath(__file__)))
 
 # id -> (category, technique, text, note, design_ref)
 CHECKS = {
-    "C01": ("model_checking", "deviation-bounded exhaustive search of scripted pressure environments on the real solveWall (<=2 deviations per execution, each replayed twice), an iteration-map model of the real wallPressure loop, a lattice of real end-to-end solves probed with a fresh solver, and exhaustive call histories on a real manager with bit-identity to a fresh manager",
+    "C01": ("model_checking", "deviation-bounded exhaustive search of scripted pressure environments on the real solveWall (<=2 deviations per execution, each replayed twice), an iteration-map model of the real wallPressure loop, a lattice of real end-to-end solves probed with a fresh solver (incl. nucleation temperatures tuned at run time so that the root sits just below the top of the search window), and exhaustive call histories on a real manager with bit-identity to a fresh manager",
             "Success with a finite velocity implies a sign change of the pressure within the configured tolerance, the window, and auxiliary data that carry the tag of the final evaluation; runaway implies negative pressure at the top and no velocity; failed final evaluations are labelled ERROR; deviations at earlier evaluations do not change the result; real solves: sign change at v -/+ 1.25 errTol with a fresh EOM, T+-/vJ/vLTE of the matching at v, wall parameters reproduced by one more evaluation; every operation history up to depth 2/3 leaves solveWall bit-identical.",
             "trusted: the scripted environment sets the solver flags the way the real wallPressure/findPlasmaProfile do; out-of-equilibrium particles excluded (collision files are LFS pointers)", "DESIGN.md sections 3 C01 and 8.2"),
     "C03": ("exploration", "exhaustive EOS x Tn x units x tolerance x wall-velocity lattice; independent integrator in the similarity variable xi with energy-flux jump at the front; efficiency factor from the oracle's own profile",
@@ -17,7 +17,7 @@ CHECKS = {
     "C04": ("exploration", "exhaustive lattice potential x grid size x wall velocity (3 deflagrations, 2 hybrids, 3 detonations) x wall shape x out-of-equilibrium moment variant; analytic T30/T33 at every grid point",
             "At every grid point of every successful profile the analytic residual of the T33 equation changes sign inside the root finder's guaranteed interval and T30 equals c1; far-field values against the matching on both branches; boundary constants against the analytic EOS.",
             "trusted: analytic potentials of vmc/models.py; the out-of-equilibrium stress is the code's own deltaToTmunu (C13's subject) evaluated with the oracle's velocity", "DESIGN.md sections 3 C04 and 8.2"),
-    "C05": ("exploration", "exhaustive EOS lattice x both tolerances; entropy mismatch recomputed by the oracle from validated matchings on a grid of the window for the sentinel clauses; call histories with stale convergence flags compared bitwise with a fresh object",
+    "C05": ("exploration", "exhaustive EOS lattice x both tolerances; entropy mismatch recomputed by the oracle from validated matchings on a grid of the window for the sentinel clauses; call histories with stale convergence flags compared bitwise with a fresh object; WallGoManager.wallSpeedLTE after the manager served another parameter point / another Tn",
             "Interior root: |T+ gamma+ - T- gamma-| within a derived tolerance plus the C02/C03 relations at that velocity; runaway sentinel: one sign of the mismatch on 8/24 window points; static sentinel: stopping sign at vMin; manager.wallSpeedLTE == Hydrodynamics.findvwLTE on a traced model.",
             "trusted: oracle matchings validated by junction residuals and xi-integration; points within 1e-3 Tn of a threshold are inadmissible as the property allows", "DESIGN.md section 3 C05"),
     "C06": ("exploration", "exhaustive EOS lattice x velocities x phase-range/flag combinations; oracle Chapman-Jouguet velocity; scan of validated matchings for the range clauses",
@@ -26,7 +26,7 @@ CHECKS = {
     "C07": ("exploration", "metamorphic pairs (units x s, units x 1) over the full product model x Tn x settings x unit factor on the real end-to-end pipeline",
             "About 30 pair relations per case: every dimensionless output equal within solver tolerances, every dimensionful one scaled by the right power; a run that raises only in scaled units is a violation reported with its stage.",
             "trusted: analytic models of vmc/models.py (Scaled wrapper); wall-shape tolerance 5e-3 from measured reproducibility; out-of-equilibrium particles excluded", "DESIGN.md sections 3 C07 and 8.2"),
-    "C08": ("exploration", "complete hyperoctahedral group of the field space x 3 translations, metamorphic comparison with the original labelling on the real end-to-end pipeline",
+    "C08": ("exploration", "complete hyperoctahedral group of the field space x 3 translations (incl. a model with a spectator field that a permutation lists first), metamorphic comparison with the original labelling on the real end-to-end pipeline",
             "Velocities, temperatures, matchings equal; widths permuted; distances between wall centres mapped by the permutation; phases and profiles transformed pointwise.",
             "trusted: Relabel wrapper of vmc/models.py; wall-shape tolerance 5e-3 from measured reproducibility", "DESIGN.md sections 3 C08 and 8.2"),
     "C13": ("exploration", "complete monomial basis of the quadrature's exactness class per grid size and basis variant; mpmath ladder for a non-polynomial family; deltaToTmunu against the oracle's own boosted momentum integral",
@@ -38,7 +38,7 @@ CHECKS = {
     "C18": ("model_checking", "explicit-state BFS over all operation sequences to depth 3/4 on real InterpolatableFunction objects (5-6 object kinds x 3 initial states x 16 mode pairs; adaptive lattice with threshold 3), states merged by digest, reference model stepped in lock-step",
             "After every transition: abscissae strictly increasing and finite, non-finite rows absent individually, counters consistent; every evaluation/derivative has the input's shape and equals the oracle's own CubicSpline inside and exactly the selected mode's prescription outside; write+read round trip.",
             "trusted: scipy CubicSpline in the oracle (same boundary condition as the code); quick: 3.3e5 states, 2.4e6 transitions, no caps", "DESIGN.md sections 3 C18 and 8.2"),
-    "C02": ("exploration", "exhaustive EOS x Tn x units x tolerance x wall-velocity lattice on the real solver; analytic-EOS flux oracle; own xi-integrating exact-matching solver for the fallback clause",
+    "C02": ("exploration", "exhaustive EOS x Tn x units x tolerance x wall-velocity lattice on the real solver; analytic-EOS flux oracle; all ordered call sequences (depth 2, thorough 3) on one Hydrodynamics/template object against fresh objects; other hydrodynamic temperature windows; own xi-integrating exact-matching solver for the fallback clause",
             "Every point of a fixed lattice (bag/template/two-step/traced EOS, both sound-speed orderings, 16 velocities on both sides of c_b and v_J, tight and default solver tolerances) is run through Hydrodynamics.findMatching/findHydroBoundaries and the energy/momentum fluxes are recomputed from the analytic EOS with a tolerance = solver tolerance x finite-difference conditioning. Lattice agreement, not a proof over the reals.",
             "trusted: analytic EOS algebra in vmc/oracles/eos.py, scipy brentq/solve_ivp in the oracle; admissibility predicate stated in evidence; known finding D9 listed by input", "DESIGN.md section 3 C02"),
     "C09": ("exploration", "exhaustive lattice of potentials x temperatures x wall shapes x grid sizes on the real pressure integral; two-tier oracle (independent quadrature for every shape, Delta V for resolved shapes)",
